@@ -208,6 +208,18 @@ Proof.
   rewrite <- (be_bytes_sl v 0 n O1) by lia. rewrite <- (be_bytes_sl v2 0 n O2) by lia. rewrite E. reflexivity.
 Qed.
 
+Lemma chain6 x : exists q1 q2 q3 q4,
+  x = 64 * q1 + x mod 64 /\ q1 = 64 * q2 + (x / 64) mod 64 /\ q2 = 64 * q3 + (x / 4096) mod 64
+  /\ q3 = 64 * q4 + (x / 262144) mod 64 /\ q4 = 64 * (x / 1073741824) + (x / 16777216) mod 64.
+Proof.
+  exists (x / 64), (x / 4096), (x / 262144), (x / 16777216).
+  refine (conj (N.div_mod' x 64) (conj _ (conj _ (conj _ _)))).
+  - rewrite (N.div_mod' (x / 64) 64) at 1. rewrite N.div_div by discriminate. reflexivity.
+  - rewrite (N.div_mod' (x / 4096) 64) at 1. rewrite N.div_div by discriminate. reflexivity.
+  - rewrite (N.div_mod' (x / 262144) 64) at 1. rewrite N.div_div by discriminate. reflexivity.
+  - rewrite (N.div_mod' (x / 16777216) 64) at 1. rewrite N.div_div by discriminate. reflexivity.
+Qed.
+
 (** standard path meta header (4 bytes: CurrINF 2, CurrHF 6, RSV 6, SegLen 3 x 6 bits) *)
 Lemma encode_decode_meta (v buf : bytes) :
   bytes_ok v = true -> blen v = 4 -> bytes_ok buf = true -> blen buf = 4 ->
@@ -231,5 +243,11 @@ Proof.
   fold m m2.
   change (2 ^ 30) with 1073741824 in *. change (2 ^ 24) with 16777216 in *. change (2 ^ 18) with 262144 in *.
   change (2 ^ 12) with 4096 in *. change (2 ^ 6) with 64 in *.
-  clear - Lm Lm2 Hr B1 B2 B3 B4 B5 B6. lia.
+  destruct (chain6 m) as (q1 & q2 & q3 & q4 & C1 & C2 & C3 & C4 & C5).
+  destruct (chain6 m2) as (p1 & p2 & p3 & p4 & D1 & D2 & D3 & D4 & D5).
+  rewrite B6 in D1. rewrite B5 in D2. rewrite B4 in D3. rewrite <- B3 in D4. rewrite <- B2, <- B1 in D5. rewrite Hr in C4.
+  clear - C1 C2 C3 C4 C5 D1 D2 D3 D4 D5.
+  remember (m mod 64) as t1. remember ((m / 64) mod 64) as t2. remember ((m / 4096) mod 64) as t3.
+  remember ((m / 16777216) mod 64) as t5. remember (m / 1073741824) as t6.
+  clear Heqt1 Heqt2 Heqt3 Heqt5 Heqt6. lia.
 Qed.
